@@ -83,6 +83,21 @@ def tree_with_long_functions(rng):
         else:
             body = text.encode()
         out[rel] = body
+    if rng.random() < 0.35:
+        # twins: the same bytes as C and as C++ (C keeps the block macro inside the function, C++ reports it as a nested unit),
+        # and as JavaScript and TypeScript (': {' after a call is a header for TypeScript only)
+        n = rng.choice([28, 34, 58, 66])
+        c_body = "int drain(struct q *q) {\n  LIST_FOREACH(it, q) {\n" + "".join(f"    use{k}(it);\n" for k in range(n)) + "  }\n  return 0;\n}\n"
+        j_body = "function pick(c, a) {\n  return c ? run(a) : {\n" + "".join(f"    k{k}: {k},\n" for k in range(n)) + "  };\n}\n"
+        d1, d2 = rng.choice([("src", "port"), ("", "lib"), ("a", "a")])
+        pre1 = (d1 + "/") if d1 else ""
+        pre2 = (d2 + "/") if d2 else ""
+        if rng.random() < 0.5:
+            out[pre1 + "twin_drain.c"] = c_body.encode()
+            out[pre2 + "twin_drain.cpp"] = c_body.encode()
+        else:
+            out[pre1 + "twin_pick.js"] = j_body.encode()
+            out[pre2 + "twin_pick.ts"] = j_body.encode()
     return out
 
 
